@@ -172,8 +172,78 @@ HAND = {
 }
 
 
+WS_XSD = ["", "", " ", "\t", "\n", "\r\n ", "  "]
+WS_OTHER = ["\x0b", "\x0c", "\x1c", "\x85", "\xa0", "\u2003", "\u3000", "\ufeff", "\u200b"]
+
+
+def xsd_tz(rng):
+    r = rng.random()
+    if r < 0.25:
+        return ""
+    if r < 0.4:
+        return "Z"
+    if r < 0.5:
+        return rng.choice(["+00:00", "-00:00", "+14:00", "-14:00", "+13:59", "-13:59"])
+    return "%s%02d:%02d" % (rng.choice("+-"), rng.randint(0, 13), rng.randint(0, 59))
+
+
+def xsd_year(rng):
+    r = rng.random()
+    if r < 0.15:
+        return rng.choice(["0000", "-0000", "0001", "-0001", "9999", "10000", "-10000", "0100", "0099"])
+    y = rand_year(rng)
+    return D.format_date(y, 1, 1)[:-6]
+
+
+def xsd_time_body(rng):
+    r = rng.random()
+    if r < 0.1:
+        return "24:00:00" + rng.choice(["", ".0", ".000", ".000000000", ".0000000000"])
+    k = rng.choice([0, 0, 1, 2, 3, 4, 5, 6, 7, 8, 9, 9, 10, 12])
+    fr = "".join(rng.choice("0123456789") for _ in range(k))
+    return "%02d:%02d:%02d%s" % (rng.randint(0, 23), rng.randint(0, 59), rng.randint(0, 59), ("." + fr) if k else "")
+
+
+def xsd_form(rng, kind):
+    """a string drawn from the XSD grammar of `kind` (not via str() of a value)"""
+    if kind == "time":
+        core = xsd_time_body(rng) + xsd_tz(rng)
+    else:
+        ys = xsd_year(rng)
+        y = int(ys)
+        m = rng.randint(1, 12)
+        d = rng.choice([1, 28, _mlen(y, m), rng.randint(1, _mlen(y, m))])
+        core = "%s-%02d-%02d" % (ys, m, d)
+        if kind == "datetime":
+            core += "T" + xsd_time_body(rng)
+        core += xsd_tz(rng)
+    return rng.choice(WS_XSD) + core + rng.choice(WS_XSD)
+
+
+def near_miss(rng, s):
+    """one grammar-level defect: a field out of range by one, a missing/extra digit, a foreign white space"""
+    r = rng.random()
+    if r < 0.2:
+        return rng.choice(WS_OTHER) + s if rng.random() < 0.5 else s + rng.choice(WS_OTHER)
+    if r < 0.4:
+        return re.sub(r"\d\d(?=\D|$)", lambda m: rng.choice(["00", "13", "24", "32", "60", "61", "99", m.group(0)]), s, count=rng.randint(1, 2))
+    if r < 0.55:
+        return s.replace(":", rng.choice(["", "::", ".", "-"]), 1)
+    if r < 0.7:
+        return rng.choice(["+", "0", "00", "-0", "--"]) + s.lstrip()
+    if r < 0.85:
+        return s.rstrip() + rng.choice(["z", "+1:00", "+01", "+01:0", "+01:000", "-14:01", "+15:00", "+24:00", "ZZ", "."])
+    return mutate(rng, s)
+
+
 def gen_parse(rng, tier):
     n = 700 if tier == "quick" else 160000
+    # forms drawn from the XSD grammar itself (every fraction length 0..12, -0000, +00:00, 24:00:00.0…,
+    # XSD white space) and one-defect neighbours of them
+    for kind in KINDS:
+        for _ in range(n // 2):
+            s = xsd_form(rng, kind)
+            yield {"kind": kind, "s": s if rng.random() < 0.6 else near_miss(rng, s)}
     for kind, xs in HAND.items():
         for s in xs:
             yield {"kind": kind, "s": s}
@@ -367,6 +437,19 @@ DUR_HAND = [
 def gen_dur(rng, tier):
     for s in DUR_HAND:
         yield {"s": s.replace("\\n", "\n")}
+    # every combination of components x sign x seconds with/without fraction x a trailing T
+    for mask in range(64):
+        for neg in ("", "-"):
+            for sec in ("5", "0.5", "05.050"):
+                date = "".join(f"{rng.randint(0, 99)}{c}" for i, c in enumerate("YMD") if mask >> i & 1)
+                t = "".join(f"{rng.randint(0, 99)}{c}" for i, c in enumerate("HM") if mask >> (3 + i) & 1)
+                if mask >> 5 & 1:
+                    t += sec + "S"
+                elif sec != "5":
+                    continue
+                yield {"s": neg + "P" + date + ("T" + t if t else "")}
+                if t == "":
+                    yield {"s": neg + "P" + date + "T"}
     n = 1500 if tier == "quick" else 240000
     for _ in range(n):
         parts = ""
@@ -640,6 +723,68 @@ def classify_std(a, o):
     return a["kind"] + ":" + ("ok" if "ok" in o else o["err"])
 
 
+# ----------------------------------------------------------------- history independence (spec-level)
+def _snapshot(kind, s):
+    try:
+        if kind == "period":
+            p = XmlPeriod(s)
+            return ["ok", p.data, p.as_dict()]
+        if kind == "duration":
+            d = XmlDuration(s)
+            return ["ok", d.data, {k: repr(v) for k, v in d.asdict().items()}]
+        x = KINDS[kind].from_string(s)
+        return ["ok", list(x), str(x), repr(x)]
+    except ValueError:
+        return ["ValueError"]
+
+
+def impl_repeat(a):
+    """same input, same answer: before and after other parses, comparisons, conversions and hashing of
+    the very same objects (nothing in the date/time types may keep state between calls)"""
+    first = _snapshot(a["kind"], a["s"])
+    other = _snapshot(a["kind2"], a["s2"])
+    objs = []
+    for k, t in ((a["kind"], a["s"]), (a["kind2"], a["s2"])):
+        if k in KINDS:
+            try:
+                objs.append(KINDS[k].from_string(t))
+            except ValueError:
+                pass
+    before = [(list(o), str(o)) for o in objs]
+    for o in objs:
+        for p in objs:
+            if type(o) is type(p) and not isinstance(o, XmlDate):
+                o < p, o == p, o >= p  # noqa: B015
+        hash(o)
+        for conv in ("to_datetime", "to_time", "to_date"):
+            if hasattr(o, conv):
+                try:
+                    getattr(o, conv)()
+                except (ValueError, OverflowError):
+                    pass
+    after = [(list(o), str(o)) for o in objs]
+    again = _snapshot(a["kind"], a["s"])
+    other_again = _snapshot(a["kind2"], a["s2"])
+    return ok(first == again and other == other_again and before == after)
+
+
+def gen_repeat(rng, tier):
+    n = 250 if tier == "quick" else 20000
+    kinds = ["date", "time", "datetime", "period", "duration"]
+
+    def one(k):
+        if k in KINDS:
+            t = xsd_form(rng, k)
+            return t if rng.random() < 0.7 else near_miss(rng, t)
+        if k == "period":
+            return rng.choice(PERIOD_HAND)
+        return rng.choice(DUR_HAND)
+
+    for _ in range(n):
+        k1, k2 = rng.choice(kinds), rng.choice(kinds)
+        yield {"kind": k1, "s": one(k1), "kind2": k2, "s2": one(k2)}
+
+
 # ----------------------------------------------------------------- distribution buckets (evidence: classify=)
 def classify_parse(a, o):
     s = a["s"]
@@ -711,18 +856,21 @@ CORRS = [
     Corr("date.args", gen_args, impl_args, nontrivial=lambda a, o: len(a["s"]) > 2, classify=classify_args,
          describe="parse_date_args on every DateFormat"),
     Corr("py.int", gen_int, impl_int, nontrivial=lambda a, o: len(a["s"]) > 0, describe="CPython int(str) vs Py.pyInt"),
-    Corr("date.validate_date", gen_vdate, impl_validate_date),
-    Corr("date.validate_time", gen_vtime, impl_validate_time),
+    Corr("date.validate_date", gen_vdate, impl_validate_date, classify=lambda a, o: "valid" if o.get("ok") else "invalid"),
+    Corr("date.validate_time", gen_vtime, impl_validate_time, classify=lambda a, o: "valid" if o.get("ok") else "invalid"),
     Corr("period.parse", gen_period, impl_period, nontrivial=lambda a, o: len(a["s"]) > 2, classify=classify_period,
          describe="XmlPeriod(value) vs model"),
     Corr("dur.parse", gen_dur, impl_dur, canon=canon_dur, nontrivial=lambda a, o: len(a["s"]) > 2, classify=classify_dur,
          describe="XmlDuration(value) vs model"),
     Corr("date.cmp", gen_cmp, impl_cmp, classify=classify_cmp, describe="six rich comparisons of XmlTime/XmlDateTime vs model key"),
-    Corr("date.days_from_civil", gen_dfc, impl_dfc),
+    Corr("date.days_from_civil", gen_dfc, impl_dfc,
+         classify=lambda a, o: ("jan-feb" if a["v"][1] <= 2 else "mar-dec") + (":y<=0" if a["v"][0] <= 0 else ":y>0")),
     Corr("date.to_std", gen_to_std, impl_to_std, classify=classify_std,
          describe="to_date/to_time/to_datetime vs the record model of datetime (error kinds included)"),
     Corr("date.from_std", gen_from_std, impl_from_std, classify=classify_std,
          describe="from_date/from_time/from_datetime on real stdlib objects (utcoffset down to microseconds) vs model"),
+    Corr("date.repeat", gen_repeat, impl_repeat, spec=lambda a: ok(True), classify=lambda a, o: a["kind"] + "/" + a["kind2"],
+         describe="spec-level: results do not depend on earlier parses / comparisons / conversions of the same objects"),
 ]
 
 # ----------------------------------------------------------------- oracle
@@ -918,6 +1066,16 @@ def oracle_period(a):
             return f"{s!r} accepted with month {mo}"
         if d is not None and not 1 <= d <= ([31, 29, 31, 30, 31, 30, 31, 31, 30, 31, 30, 31][mo - 1] if mo else 31):
             return f"{s!r} accepted with day {d}"
+        out = str(XmlPeriod(s))
+        bogus = out.startswith("--") and out[4:6] == "--"  # the XSD 1.0 gMonth form --MM--, kept on purpose
+        if got["offset"] is not None and not -840 <= got["offset"] <= 840:
+            return None
+        if not bogus:
+            back = xsd_period(out)
+            if back is None:
+                return f"XmlPeriod({s!r}) is accepted and formats to {out!r}, no XSD-valid g* value"
+            if back != got:
+                return f"XmlPeriod({s!r}) formats to {out!r}, which XSD reads as {back}, not {got}"
     return None
 
 
@@ -951,6 +1109,12 @@ def oracle_dur(a):
             return f"XSD-valid duration {s!r} rejected"
         if got != exp:
             return f"XSD-valid duration {s!r} parsed as {got}, XSD assigns {exp}"
+    if got is not None:
+        out = str(XmlDuration(s))
+        if xsd_duration(out) is None:
+            return f"XmlDuration({s!r}) is accepted and formats to {out!r}, no XSD-valid duration"
+        if XmlDuration(out).asdict() != got:
+            return f"XmlDuration({s!r}) formats to {out!r} which parses to {XmlDuration(out).asdict()}"
     return None
 
 
@@ -982,48 +1146,104 @@ def oracle_cmp(a):
     return None
 
 
-def oracle_stdlib(a):
-    """conversions to and from the standard library preserve the instant"""
-    import datetime as _dt
+def _std_instant(dt):
+    """timeline position in ns of a stdlib datetime (naive = UTC), by stdlib arithmetic only"""
+    import datetime as _d
 
+    epoch = _d.datetime(1, 1, 1, tzinfo=_d.timezone.utc)
+    aware = dt if dt.tzinfo else dt.replace(tzinfo=_d.timezone.utc)
+    delta = aware - epoch
+    return ((delta.days + 1) * 86400 + delta.seconds) * 10**9 + delta.microseconds * 1000
+
+
+def oracle_stdlib(a):
+    """conversions to and from the standard library preserve the instant (where datetime can hold the
+    value: year 1..9999, no 24:00:00; below the microsecond the value is truncated)"""
     kind, v = a["kind"], a["v"]
     if not real_value(kind, v) or not _offset_ok(v):
         return None
     cls = KINDS[kind]
     x = cls(*v)
+    year_ok = kind == "time" or 1 <= v[0] <= 9999
+    h24 = kind != "date" and v[-5] == 24
+    conv = {"date": "to_datetime", "time": "to_time", "datetime": "to_datetime"}[kind]
+    try:
+        obj = getattr(x, conv)()
+    except (ValueError, OverflowError) as e:
+        if year_ok and not h24:
+            return f"{x!r}.{conv}() raised {type(e).__name__} for a value the standard library can hold"
+        return None
+    except Exception as e:  # noqa: BLE001
+        return f"{x!r}.{conv}() raised {type(e).__name__}"
+    if not year_ok or h24:
+        return f"{x!r}.{conv}() = {obj!r}: the standard library cannot hold this value"
     if kind == "date":
-        if not 1 <= v[0] <= 9999:
-            return None
         d = x.to_date()
         if (d.year, d.month, d.day) != tuple(v[:3]):
             return f"{x!r}.to_date() = {d!r}"
         if XmlDate.from_date(d) != XmlDate(*v[:3]):
             return f"XmlDate.from_date({d!r}) != {x!r}"
-        dt = x.to_datetime()
-        if XmlDate.from_datetime(dt) != x:
-            return f"XmlDate.from_datetime({dt!r}) = {XmlDate.from_datetime(dt)!r} != {x!r}"
+        if XmlDate.from_datetime(obj) != x:
+            return f"XmlDate.from_datetime({obj!r}) = {XmlDate.from_datetime(obj)!r} != {x!r}"
+        if _std_instant(obj) != ref_instant("datetime", [*v[:3], 0, 0, 0, 0, v[3]]):
+            return f"{x!r}.to_datetime() = {obj!r} is not the first instant of that day"
         return None
+    trunc = list(v)
+    trunc[-2] -= trunc[-2] % 1000
     if kind == "time":
-        if v[0] == 24 or v[3] % 1000:
-            return None
-        t = x.to_time()
-        back = XmlTime.from_time(t)
-        if list(back) != v:
-            return f"XmlTime.from_time({t!r}) = {back!r} != {x!r}"
+        back = XmlTime.from_time(obj)
+        if list(back) != trunc:
+            return f"XmlTime.from_time({obj!r}) = {back!r}, expected {trunc}"
+        got = ((obj.hour * 60 + obj.minute) * 60 + obj.second) * 10**9 + obj.microsecond * 1000
+        off = obj.utcoffset()
+        got -= 0 if off is None else (off // _US) * 1000
+        if got != ref_instant(kind, trunc):
+            return f"{x!r}.to_time() = {obj!r} is another time of day"
         return None
-    if not 1 <= v[0] <= 9999 or v[3] == 24 or v[6] % 1000:
+    back = XmlDateTime.from_datetime(obj)
+    if list(back) != trunc:
+        return f"XmlDateTime.from_datetime({obj!r}) = {back!r}, expected {trunc}"
+    if _std_instant(obj) != ref_instant(kind, trunc):
+        return f"{x!r}.to_datetime() = {obj!r} is another instant"
+    return None
+
+
+def oracle_from_std(a):
+    """from_date/from_time/from_datetime of a real stdlib object: same instant, and the way back gives
+    an equal object — for UTC offsets that are whole minutes (XSD timezones have minute resolution)"""
+    kind, v = a["kind"], a["v"]
+    u = None if kind == "date.from_date" else v[-1]
+    if u is not None and u % 60000000:
         return None
-    dt = x.to_datetime()
-    back = XmlDateTime.from_datetime(dt)
-    if list(back) != v:
-        return f"XmlDateTime.from_datetime({dt!r}) = {back!r} != {x!r}"
-    ref = ref_instant(kind, v)
-    epoch = _dt.datetime(1, 1, 1, tzinfo=_dt.timezone.utc)
-    aware = dt if dt.tzinfo else dt.replace(tzinfo=_dt.timezone.utc)
-    delta = aware - epoch
-    ns = ((delta.days + 1) * 86400 + delta.seconds) * 10**9 + delta.microseconds * 1000
-    if ns != ref:
-        return f"{x!r}.to_datetime() = {dt!r} is another instant"
+    if kind == "date.from_date":
+        d = _dt.date(*v)
+        x = XmlDate.from_date(d)
+        if list(x) != [*v, None] or x.to_date() != d:
+            return f"XmlDate.from_date({d!r}) = {x!r}"
+        return None
+    if kind == "time.from_time":
+        t = _dt.time(*v[:4], tzinfo=_mk_tz(u))
+        x = XmlTime.from_time(t)
+        if not real_value("time", list(x)):
+            return f"XmlTime.from_time({t!r}) = {x!r} is no time of day"
+        t2 = x.to_time()
+        if t2 != t or t2.utcoffset() != t.utcoffset() or (t2.tzinfo is None) != (t.tzinfo is None):
+            return f"XmlTime.from_time({t!r}).to_time() = {t2!r}"
+        return None
+    dt = _dt.datetime(*v[:7], tzinfo=_mk_tz(u))
+    if kind == "date.from_datetime":
+        x = XmlDate.from_datetime(dt)
+        if list(x)[:3] != v[:3] or x.offset != (None if u is None else u // 60000000):
+            return f"XmlDate.from_datetime({dt!r}) = {x!r}"
+        return None
+    x = XmlDateTime.from_datetime(dt)
+    if not real_value("datetime", list(x)):
+        return f"XmlDateTime.from_datetime({dt!r}) = {x!r} is no real date/time"
+    if ref_instant("datetime", list(x)) != _std_instant(dt):
+        return f"XmlDateTime.from_datetime({dt!r}) = {x!r} is another instant"
+    dt2 = x.to_datetime()
+    if dt2 != dt or dt2.utcoffset() != dt.utcoffset() or (dt2.tzinfo is None) != (dt.tzinfo is None):
+        return f"XmlDateTime.from_datetime({dt!r}).to_datetime() = {dt2!r}"
     return None
 
 
@@ -1034,6 +1254,7 @@ ORACLES = [
     Oracle("c06.duration", gen_dur, oracle_dur, from_ops=("dur.parse",)),
     Oracle("c06.cmp", gen_cmp, oracle_cmp, from_ops=("date.cmp",)),
     Oracle("c06.stdlib", gen_str, oracle_stdlib, from_ops=("date.str",)),
+    Oracle("c06.from_std", gen_from_std, oracle_from_std, from_ops=("date.from_std",)),
 ]
 
 FINDINGS = {}
